@@ -15,7 +15,23 @@ def xmrEncBlk (blk : Bytes) : List Char :=
 /-- per-block decoder, as in `xmrDecode` -/
 def xmrDecBlk (lastDec : Nat) (blk : List Char) : R Bytes := do
   let d ← b58Decode btcAlphabet blk
-  pure (xmrUnPad d (if blk.length = 11 then 8 else lastDec))
+  let k := if blk.length = 11 then 8 else lastDec
+  if (d.dropWhile (· == 0)).length > k then throw .value
+  pure (xmrUnPad d k)
+
+/-- the per-block decoder without monadic plumbing -/
+theorem xmrDecBlk_eq (lastDec : Nat) (blk : List Char) :
+    xmrDecBlk lastDec blk = match b58Decode btcAlphabet blk with
+      | .error e => .error e
+      | .ok d =>
+        if (d.dropWhile (· == 0)).length > (if blk.length = 11 then 8 else lastDec) then .error .value
+        else .ok (xmrUnPad d (if blk.length = 11 then 8 else lastDec)) := by
+  unfold xmrDecBlk
+  cases b58Decode btcAlphabet blk with
+  | error e => rfl
+  | ok d =>
+    simp only [bind, Except.bind]
+    split <;> rfl
 
 theorem xmrEncode_eq (data : Bytes) : xmrEncode data = (chunksOf 8 data).flatMap xmrEncBlk := rfl
 
@@ -43,6 +59,14 @@ theorem xmr_len_lt : ∀ k : Fin 8, 0 < k.val → 0 < xmrEncLen k.val ∧ xmrEnc
 theorem btc_zero : btcAlphabet.getD 0 'x' = '1' := by decide
 
 /-! ### one block -/
+
+theorem dropWhile_length_le {α} (p : α → Bool) (l : List α) : (l.dropWhile p).length ≤ l.length := by
+  induction l with
+  | nil => simp
+  | cons a t ih =>
+    rw [List.dropWhile_cons]; split
+    · simp only [List.length_cons]; omega
+    · exact Nat.le_refl _
 
 theorem leadingCount_replicate_append' {α} [BEq α] [LawfulBEq α] (x : α) (p : Nat) (l : List α) :
     leadingCount x (List.replicate p x ++ l) = p + leadingCount x l := by
@@ -131,10 +155,9 @@ theorem xmrUnPad_zeros_append (p : Nat) (blk : Bytes) :
 theorem xmrDecBlk_xmrEncBlk (lastDec : Nat) (blk : Bytes) (hk : blk.length ≤ 8)
     (hl : blk.length < 8 → lastDec = blk.length) (hne : blk ≠ []) :
     xmrDecBlk lastDec (xmrEncBlk blk) = .ok blk := by
-  unfold xmrDecBlk
-  rw [xmrEncBlk_length blk hk]
+  rw [xmrDecBlk_eq, xmrEncBlk_length blk hk]
   rw [xmrEncBlk_eq, b58_decode_encode btcAlphabet btcAlphabet_nodup btcAlphabet_length]
-  simp only [bind, Except.bind, pure, Except.pure]
+  simp only
   have hsel : (if xmrEncLen blk.length = 11 then 8 else lastDec) = blk.length := by
     by_cases h8 : blk.length = 8
     · rw [h8]; rfl
@@ -143,6 +166,12 @@ theorem xmrDecBlk_xmrEncBlk (lastDec : Nat) (blk : Bytes) (hk : blk.length ≤ 8
       simp only at this
       rw [if_neg (by omega), hl (by omega)]
   rw [hsel, xmrUnPad_zeros_append]
+  have hdw : ¬ ((List.replicate (xmrEncLen blk.length - (b58Encode btcAlphabet blk).length) (0 : UInt8)
+      ++ blk).dropWhile (· == 0)).length > blk.length := by
+    rw [List.dropWhile_append_of_pos (by intro a ha; simp [(List.mem_replicate.mp ha).2])]
+    have := dropWhile_length_le (· == (0 : UInt8)) blk
+    omega
+  rw [if_neg hdw]
 
 /-! ### the whole string -/
 
@@ -201,5 +230,193 @@ theorem xmr_decode_encode (b : Bytes) : xmrDecode (xmrEncode b) = .ok b := by
   rw [this]
   simp only [h2, bind, Except.bind, pure, Except.pure]
   rw [flatten_chunksOf 8 (by omega)]
+
+/-! ### canonicity: every accepted string is the encoding of its payload -/
+
+/-- a digit string of `L_k - z` Base58 digits without leading zero needs at least `k - z` bytes -/
+theorem xmr_lens_lower : ∀ k z : Fin 9, z.val < k.val →
+    256 ^ (k.val - z.val - 1) ≤ 58 ^ (xmrEncLen k.val - z.val - 1) := by decide
+
+theorem xmr_lens_ge : ∀ k : Fin 9, k.val ≤ xmrEncLen k.val := by decide
+
+theorem xmrUnPad_append_right (a b : Bytes) : xmrUnPad (a ++ b) b.length = b := by
+  unfold xmrUnPad pySlice pyBound
+  simp only [List.length_append]
+  have h1 : ¬ ((↑(a.length + b.length) : Int) - ↑b.length < 0) := by omega
+  have h2 : ¬ ((↑(a.length + b.length) : Int) < 0) := by omega
+  have h3 : ((↑(a.length + b.length) : Int) - ↑b.length).toNat = a.length := by omega
+  have h4 : ¬ (a.length > a.length + b.length) := by omega
+  simp only [h1, h2, h3, h4, if_false, Int.toNat_natCast, gt_iff_lt, Nat.lt_irrefl]
+  rw [List.take_of_length_le (by simp), List.drop_left' rfl]
+
+theorem xmrUnPad_append_right' (d a b : Bytes) (k : Nat) (hd : d = a ++ b) (hk : b.length = k) :
+    xmrUnPad d k = b := by
+  subst hd; subst hk; exact xmrUnPad_append_right a b
+
+theorem leadingCount_dropWhile (b : Bytes) : leadingCount (0 : UInt8) (b.dropWhile (· == 0)) = 0 := by
+  have := leadingCount_replicate_append (0 : UInt8) 0 _ (dropWhile_head_ne (0 : UInt8) b)
+  simpa using this
+
+/-- the number of Base58 digits of a value bounds it from below -/
+theorem pow_digits_pred_le (v : Nat) (h : 0 < (Nat.digits 58 v).length) :
+    58 ^ ((Nat.digits 58 v).length - 1) ≤ v := by
+  have hv : v ≠ 0 := by rintro rfl; simp at h
+  have := Nat.base_pow_length_digits_le 58 v (by omega) hv
+  have hs : (Nat.digits 58 v).length = ((Nat.digits 58 v).length - 1) + 1 := by omega
+  rw [hs, Nat.pow_succ] at this
+  omega
+
+/-- one block: an accepted block string of the right length decodes to exactly `k` bytes whose
+block encoding is the string. -/
+theorem xmrDecBlk_canonical (lastDec k : Nat) (blk : List Char) (out : Bytes) (hk : k ≤ 8)
+    (hL : blk.length = xmrEncLen k) (hsel : (if blk.length = 11 then 8 else lastDec) = k)
+    (h : xmrDecBlk lastDec blk = .ok out) : out.length = k ∧ xmrEncBlk out = blk := by
+  rw [xmrDecBlk_eq, hsel] at h
+  cases hd : b58Decode btcAlphabet blk with
+  | error e => rw [hd] at h; cases h
+  | ok d =>
+    rw [hd] at h
+    simp only at h
+    by_cases hgt : (d.dropWhile (· == 0)).length > k
+    · rw [if_pos hgt] at h; cases h
+    · rw [if_neg hgt] at h
+      have hout : out = xmrUnPad d k := by cases h; rfl
+      have henc := b58_encode_decode btcAlphabet btcAlphabet_nodup btcAlphabet_length blk d hd
+      have hsplit := split_leading (0 : UInt8) d
+      set z := leadingCount (0 : UInt8) d with hz
+      set d' := d.dropWhile (· == 0) with hd'
+      set E := b58Encode btcAlphabet d' with hE
+      have hblk : blk = List.replicate z '1' ++ E := by
+        rw [← henc, hsplit, b58Encode_zeros_append, btc_zero]
+      have hElen : E.length = (Nat.digits 58 (Bytes.toNatBE d')).length := by
+        rw [hE, b58Encode_length, hd', leadingCount_dropWhile]; omega
+      have hLz : xmrEncLen k = z + E.length := by
+        rw [← hL, hblk]; simp
+      have hkL := xmr_lens_ge ⟨k, by omega⟩
+      simp only at hkL
+      -- the decoded bytes are not shorter than the block
+      have hzm : k ≤ z + d'.length := by
+        by_contra hlt
+        have hzk : z < k := by omega
+        have hpos : 0 < (Nat.digits 58 (Bytes.toNatBE d')).length := by omega
+        have h1 := pow_digits_pred_le _ hpos
+        have h2 := toNatBE_lt d'
+        have h3 := xmr_lens_lower ⟨k, by omega⟩ ⟨z, by omega⟩ hzk
+        simp only at h3
+        have h4 : 256 ^ d'.length ≤ 256 ^ (k - z - 1) := Nat.pow_le_pow_right (by omega) (by omega)
+        have h5 : (Nat.digits 58 (Bytes.toNatBE d')).length - 1 = xmrEncLen k - z - 1 := by omega
+        rw [h5] at h1
+        omega
+      have hdsplit : d = List.replicate (z - (k - d'.length)) 0 ++ (List.replicate (k - d'.length) 0 ++ d') := by
+        rw [← List.append_assoc, ← List.replicate_add,
+          show z - (k - d'.length) + (k - d'.length) = z by omega]
+        exact hsplit
+      have hlen : (List.replicate (k - d'.length) (0 : UInt8) ++ d').length = k := by
+        simp; omega
+      have hout' : out = List.replicate (k - d'.length) 0 ++ d' := by
+        rw [hout]
+        exact xmrUnPad_append_right' _ _ _ k hdsplit hlen
+      refine ⟨by rw [hout', hlen], ?_⟩
+      rw [hout']
+      unfold xmrEncBlk rjust
+      rw [hlen, b58Encode_zeros_append, btc_zero, ← hE, hblk, ← List.append_assoc,
+        ← List.replicate_add]
+      congr 2
+      simp only [List.length_append, List.length_replicate]
+      unfold xmrEncLen at hLz
+      omega
+
+theorem mapM_cons_ok {α β} {f : α → R β} {a : α} {l : List α} {r : List β}
+    (h : (a :: l).mapM f = .ok r) : ∃ b bs, f a = .ok b ∧ l.mapM f = .ok bs ∧ r = b :: bs := by
+  rw [List.mapM_cons] at h
+  cases hf : f a with
+  | error e => rw [hf] at h; cases h
+  | ok b =>
+    cases hl : l.mapM f with
+    | error e => rw [hf, hl] at h; cases h
+    | ok bs =>
+      rw [hf, hl] at h
+      exact ⟨b, bs, rfl, rfl, by cases h; rfl⟩
+
+/-- what a successful lookup of the last block's length means -/
+theorem xmr_idxOf_inv {n i : Nat} (hn : n < 11) (h : xmrBlockEncLens.idxOf? n = some i) :
+    i < 8 ∧ xmrEncLen i = n := by
+  rw [List.idxOf?, List.findIdx?_eq_some_iff_getElem] at h
+  obtain ⟨hlt, heq, _⟩ := h
+  have hlen : xmrBlockEncLens.length = 9 := rfl
+  have he : xmrEncLen i = n := by
+    unfold xmrEncLen
+    simp only [beq_iff_eq] at heq
+    simp [List.getD_eq_getElem?_getD, hlt, heq]
+  refine ⟨?_, he⟩
+  by_contra h8
+  have h8' : i = 8 := by omega
+  subst h8'
+  have : xmrEncLen 8 = 11 := rfl
+  omega
+
+theorem xmr_blocks_canonical (kl : Nat) (hkl : kl < 8) (s : List Char) :
+    ∀ decs, s.length % 11 = xmrEncLen kl →
+      (chunksOf 11 s).mapM (xmrDecBlk kl) = .ok decs → xmrEncode decs.flatten = s := by
+  refine chunks_induction 11 (by omega) (fun s => ∀ decs, s.length % 11 = xmrEncLen kl →
+      (chunksOf 11 s).mapM (xmrDecBlk kl) = .ok decs → xmrEncode decs.flatten = s) ?_ ?_ ?_ s
+  · intro decs _ h
+    rw [chunksOf_nil, List.mapM_nil] at h
+    have : decs = [] := by cases h; rfl
+    subst this
+    rfl
+  · intro l hne hlt decs hmod h
+    have hpos : 0 < l.length := List.length_pos_iff.mpr hne
+    rw [Nat.mod_eq_of_lt hlt] at hmod
+    rw [chunksOf_of_length_le 11 l hne (by omega)] at h
+    obtain ⟨out, bs, h1, h2, rfl⟩ := mapM_cons_ok h
+    rw [List.mapM_nil] at h2
+    have hbs : bs = [] := by cases h2; rfl
+    subst hbs
+    obtain ⟨hol, hoe⟩ := xmrDecBlk_canonical kl kl l out (by omega) hmod
+      (by rw [if_neg (by omega)]) h1
+    have hkl0 : kl ≠ 0 := by
+      rintro rfl
+      have : xmrEncLen 0 = 0 := rfl
+      omega
+    have hone : out ≠ [] := by
+      intro e; rw [e] at hol; simp at hol; omega
+    simp only [List.flatten_cons, List.flatten_nil, List.append_nil]
+    rw [xmrEncode_eq, chunksOf_of_length_le 8 out hone (by omega)]
+    simpa using hoe
+  · intro l1 l2 h11 ih decs hmod h
+    have hmod2 : l2.length % 11 = xmrEncLen kl := by
+      rw [List.length_append, h11] at hmod
+      rwa [Nat.add_mod_left] at hmod
+    rw [chunksOf_append_of_length 11 (by omega) l1 l2 h11] at h
+    obtain ⟨out, bs, h1, h2, rfl⟩ := mapM_cons_ok h
+    obtain ⟨hol, hoe⟩ := xmrDecBlk_canonical kl 8 l1 out (by omega) (by rw [h11]; rfl)
+      (by rw [if_pos h11]) h1
+    have ih' := ih bs hmod2 h2
+    rw [List.flatten_cons, xmrEncode_eq, chunksOf_append_of_length 8 (by omega) out _ hol,
+      List.flatMap_cons, ← xmrEncode_eq, ih', hoe]
+
+/-- **Monero Base58 canonicity**: every accepted string is the encoding of its payload. -/
+theorem xmr_decode_canonical {s : List Char} {b : Bytes} (h : xmrDecode s = .ok b) :
+    xmrEncode b = s := by
+  rw [xmrDecode_eq] at h
+  cases hi : xmrBlockEncLens.idxOf? (s.length % 11) with
+  | none => rw [hi] at h; cases h
+  | some kl =>
+    rw [hi] at h
+    simp only at h
+    obtain ⟨hkl, hlen⟩ := xmr_idxOf_inv (Nat.mod_lt _ (by omega)) hi
+    cases hm : (chunksOf 11 s).mapM (xmrDecBlk kl) with
+    | error e => rw [hm] at h; cases h
+    | ok decs =>
+      rw [hm] at h
+      have hb : b = decs.flatten := by cases h; rfl
+      rw [hb]
+      exact xmr_blocks_canonical kl hkl s decs hlen.symm hm
+
+/-- decoding is injective on accepted strings. -/
+theorem xmrDecode_inj {s t : List Char} {b : Bytes} (hs : xmrDecode s = .ok b)
+    (ht : xmrDecode t = .ok b) : s = t := by
+  rw [← xmr_decode_canonical hs, ← xmr_decode_canonical ht]
 
 end BipVerif.Model
